@@ -484,7 +484,14 @@ impl<'a> Evaluator<'a> {
                     PatM::Unknown(s) => Err(s),
                 }
             }
-            "vec" => Ok(Val::Sym("vec!".into())),
+            "vec" => {
+                let args = crate::model::macro_args(m).ok_or("cannot parse vec! args")?;
+                let mut v = vec![];
+                for a in &args {
+                    v.push(self.eval(a, _env)?);
+                }
+                Ok(Val::List(v))
+            }
             _ => Err(format!("unsupported macro {}!", name)),
         }
     }
@@ -627,6 +634,7 @@ impl<'a> Evaluator<'a> {
                             o => Err(format!("unsupported int op {}", tok(o))),
                         }
                     }
+                    (Val::Str(a), Val::Str(c)) if matches!(&b.op, Add(_)) => Ok(Val::Str(format!("{}{}", a, c))),
                     _ => match &b.op {
                         Add(_) if (self.call_hook)(self, "op:add", &[l.clone(), r.clone()]).is_some() => {
                             (self.call_hook)(self, "op:add", &[l.clone(), r.clone()]).unwrap()
@@ -689,7 +697,15 @@ impl<'a> Evaluator<'a> {
                         env.insert(p.path.segments[0].ident.to_string(), v);
                         Ok(Val::Unit)
                     }
-                    other => Err(format!("unsupported assignment target `{}`", tok(other))),
+                    other => {
+                        if let Some(place) = self.place_of(other) {
+                            if let Some(t) = place_get_mut(env, &place) {
+                                *t = v;
+                                return Ok(Val::Unit);
+                            }
+                        }
+                        Err(format!("unsupported assignment target `{}`", tok(other)))
+                    }
                 }
             }
             Expr::Match(m) => {
@@ -716,6 +732,13 @@ impl<'a> Evaluator<'a> {
                 if let Some(r) = (self.call_hook)(self, &tok(&c.func), &args) {
                     return r;
                 }
+                let full = tok(&c.func);
+                if (full == "String::from" || full == "String::new" || full.ends_with("::to_owned") || full == "Box::new" || full == "Some" && false) && args.len() <= 1 {
+                    return Ok(args.into_iter().next().unwrap_or(Val::Str(String::new())));
+                }
+                if full == "Vec::new" || full.starts_with("Vec::<") && full.ends_with("::new") {
+                    return Ok(Val::List(vec![]));
+                }
                 match name.as_str() {
                     "Some" | "Ok" | "Err" => Ok(Val::Ctor(name, args, BTreeMap::new())),
                     _ if is_upper_first(&name) => Ok(Val::Ctor(name, args, BTreeMap::new())),
@@ -723,6 +746,71 @@ impl<'a> Evaluator<'a> {
                         Ok(args.into_iter().next().unwrap_or(Val::Unit))
                     }
                     _ => Ok(Val::Opaque(format!("call {}", tok(&c.func)))),
+                }
+            }
+            Expr::MethodCall(mc) if ["push", "append", "extend", "insert", "remove", "push_str", "clear", "truncate", "pop", "sort", "reverse", "retain", "dedup", "swap", "drain"].contains(&mc.method.to_string().as_str())
+                && self.place_of(&mc.receiver).is_some()
+                && matches!(self.eval(&mc.receiver, env), Ok(Val::List(_)) | Ok(Val::Str(_))) =>
+            {
+                let place = self.place_of(&mc.receiver).unwrap();
+                let name = mc.method.to_string();
+                let mut args = vec![];
+                for a in mc.args.iter() {
+                    args.push(self.eval(a, env)?);
+                }
+                let target = place_get_mut(env, &place).ok_or_else(|| format!("cannot resolve place {}", tok(&mc.receiver)))?;
+                match (target, name.as_str()) {
+                    (Val::List(l), "push") => {
+                        l.push(args.into_iter().next().unwrap_or(Val::Unit));
+                        Ok(Val::Unit)
+                    }
+                    (Val::List(l), "append") | (Val::List(l), "extend") => match args.into_iter().next() {
+                        Some(Val::List(o)) => {
+                            l.extend(o);
+                            Ok(Val::Unit)
+                        }
+                        Some(o) => Err(format!("append/extend with {}", o.show())),
+                        None => Err("append without argument".into()),
+                    },
+                    (Val::List(l), "insert") => match (args.get(0), args.get(1)) {
+                        (Some(Val::Int { v, .. }), Some(x)) if (*v as usize) <= l.len() => {
+                            l.insert(*v as usize, x.clone());
+                            Ok(Val::Unit)
+                        }
+                        _ => Err("insert: bad arguments".into()),
+                    },
+                    (Val::List(l), "remove") => match args.get(0) {
+                        Some(Val::Int { v, .. }) if (*v as usize) < l.len() => Ok(l.remove(*v as usize)),
+                        _ => Err("remove: bad arguments".into()),
+                    },
+                    (Val::List(l), "pop") => Ok(l.pop().map(Val::some).unwrap_or(Val::none())),
+                    (Val::List(l), "clear") => {
+                        l.clear();
+                        Ok(Val::Unit)
+                    }
+                    (Val::List(l), "reverse") => {
+                        l.reverse();
+                        Ok(Val::Unit)
+                    }
+                    (Val::List(l), "truncate") => match args.get(0) {
+                        Some(Val::Int { v, .. }) => {
+                            l.truncate(*v as usize);
+                            Ok(Val::Unit)
+                        }
+                        _ => Err("truncate: bad arguments".into()),
+                    },
+                    (Val::List(l), "drain") => {
+                        let d: Vec<Val> = l.drain(..).collect();
+                        Ok(Val::List(d))
+                    }
+                    (Val::Str(st), "push_str") => match args.get(0) {
+                        Some(Val::Str(o)) => {
+                            st.push_str(o);
+                            Ok(Val::Unit)
+                        }
+                        _ => Err("push_str: bad arguments".into()),
+                    },
+                    (_, n) => Err(format!("unsupported in-place operation .{}()", n)),
                 }
             }
             Expr::MethodCall(mc) => {
@@ -740,6 +828,106 @@ impl<'a> Evaluator<'a> {
                         "len" => return Ok(Val::int(items.len() as i128)),
                         "is_empty" => return Ok(Val::Bool(items.is_empty())),
                         "first" => return Ok(items.first().cloned().map(Val::some).unwrap_or(Val::none())),
+                        "collect" | "peekable" | "by_ref" | "into_values" | "values" | "chars_list" => return Ok(recv.clone()),
+                        "enumerate" => {
+                            return Ok(Val::List(items.iter().enumerate().map(|(i, v)| Val::Tuple(vec![Val::int(i as i128), v.clone()])).collect()))
+                        }
+                        "rev" => return Ok(Val::List(items.iter().rev().cloned().collect())),
+                        "skip" | "take" | "step_by" => {
+                            let n = match self.eval(&mc.args[0], env)? {
+                                Val::Int { v, .. } => v as usize,
+                                o => return Err(format!(".{}({})", name, o.show())),
+                            };
+                            return Ok(Val::List(match name.as_str() {
+                                "skip" => items.iter().skip(n).cloned().collect(),
+                                "take" => items.iter().take(n).cloned().collect(),
+                                _ => items.iter().step_by(n.max(1)).cloned().collect(),
+                            }));
+                        }
+                        "map" | "filter" | "filter_map" | "flat_map" | "find" | "find_map" | "position" | "for_each" | "skip_while" | "take_while" => {
+                            let mut out = vec![];
+                            for (idx, it) in items.iter().enumerate() {
+                                let r = self.apply_closure_mut(&mc.args[0], &[it.clone()], env)?;
+                                match name.as_str() {
+                                    "map" => out.push(r),
+                                    "for_each" => {}
+                                    "filter" => {
+                                        if r == Val::Bool(true) {
+                                            out.push(it.clone())
+                                        } else if r != Val::Bool(false) {
+                                            return Err(format!("filter closure returned {}", r.show()));
+                                        }
+                                    }
+                                    "filter_map" => match r {
+                                        Val::Ctor(n, p, _) if n == "Some" => out.push(p.into_iter().next().unwrap_or(Val::Unit)),
+                                        Val::Ctor(n, _, _) if n == "None" => {}
+                                        o => return Err(format!("filter_map closure returned {}", o.show())),
+                                    },
+                                    "flat_map" => match r {
+                                        Val::List(l) => out.extend(l),
+                                        o => return Err(format!("flat_map closure returned {}", o.show())),
+                                    },
+                                    "find" => {
+                                        if r == Val::Bool(true) {
+                                            return Ok(Val::some(it.clone()));
+                                        }
+                                    }
+                                    "position" => {
+                                        if r == Val::Bool(true) {
+                                            return Ok(Val::some(Val::int(idx as i128)));
+                                        }
+                                    }
+                                    "find_map" => {
+                                        if let Val::Ctor(n, _, _) = &r {
+                                            if n == "Some" {
+                                                return Ok(r);
+                                            }
+                                        }
+                                    }
+                                    _ => return Err(format!("unsupported list combinator {}", name)),
+                                }
+                            }
+                            return Ok(match name.as_str() {
+                                "find" | "find_map" | "position" => Val::none(),
+                                "for_each" => Val::Unit,
+                                _ => Val::List(out),
+                            });
+                        }
+                        "fold" | "try_fold" => {
+                            let mut acc = self.eval(&mc.args[0], env)?;
+                            for it in items.iter() {
+                                acc = self.apply_closure_mut(&mc.args[1], &[acc, it.clone()], env)?;
+                                if name == "try_fold" {
+                                    match acc {
+                                        Val::Ctor(ref n, ref p, _) if n == "Ok" => acc = p.first().cloned().unwrap_or(Val::Unit),
+                                        Val::Ctor(ref n, _, _) if n == "Err" => return Ok(acc),
+                                        _ => {}
+                                    }
+                                }
+                            }
+                            return Ok(if name == "try_fold" { Val::Ctor("Ok".into(), vec![acc], BTreeMap::new()) } else { acc });
+                        }
+                        "chain" => {
+                            let o = self.eval(&mc.args[0], env)?;
+                            if let Val::List(o) = o {
+                                let mut v = items.clone();
+                                v.extend(o);
+                                return Ok(Val::List(v));
+                            }
+                            return Err("chain with non-list".into());
+                        }
+                        "contains" => {
+                            let o = self.eval(&mc.args[0], env)?;
+                            return Ok(Val::Bool(items.contains(&o)));
+                        }
+                        "join" => {
+                            let sep = match self.eval(&mc.args[0], env)? {
+                                Val::Str(s) => s,
+                                o => return Err(format!("join({})", o.show())),
+                            };
+                            let parts: Vec<String> = items.iter().map(|v| match v { Val::Str(s) => s.clone(), Val::Sym(s) => s.clone(), o => o.show() }).collect();
+                            return Ok(Val::Str(parts.join(&sep)));
+                        }
                         "last" => return Ok(items.last().cloned().map(Val::some).unwrap_or(Val::none())),
                         "any" | "all" => {
                             let mut acc = name == "all";
@@ -760,8 +948,43 @@ impl<'a> Evaluator<'a> {
                         _ => {}
                     }
                 }
+                if let Val::Str(st) = &recv {
+                    match name.as_str() {
+                        "starts_with" | "ends_with" | "contains" => {
+                            if let Ok(Val::Str(o)) = self.eval(&mc.args[0], env) {
+                                return Ok(Val::Bool(match name.as_str() {
+                                    "starts_with" => st.starts_with(&o),
+                                    "ends_with" => st.ends_with(&o),
+                                    _ => st.contains(&o),
+                                }));
+                            }
+                            if let Ok(Val::Char(o)) = self.eval(&mc.args[0], env) {
+                                return Ok(Val::Bool(match name.as_str() {
+                                    "starts_with" => st.starts_with(o),
+                                    "ends_with" => st.ends_with(o),
+                                    _ => st.contains(o),
+                                }));
+                            }
+                        }
+                        "is_empty" => return Ok(Val::Bool(st.is_empty())),
+                        "len" => return Ok(Val::int(st.len() as i128)),
+                        "to_uppercase" => return Ok(Val::Str(st.to_uppercase())),
+                        "to_lowercase" => return Ok(Val::Str(st.to_lowercase())),
+                        "chars" => return Ok(Val::List(st.chars().map(Val::Char).collect())),
+                        "replace" => {
+                            let a = self.eval(&mc.args[0], env)?;
+                            let b = self.eval(&mc.args[1], env)?;
+                            let from = match a { Val::Str(s) => s, Val::Char(c) => c.to_string(), o => return Err(format!("replace({})", o.show())) };
+                            let to = match b { Val::Str(s) => s, Val::Char(c) => c.to_string(), o => return Err(format!("replace(_, {})", o.show())) };
+                            return Ok(Val::Str(st.replace(&from, &to)));
+                        }
+                        _ => {}
+                    }
+                }
                 match name.as_str() {
-                    "into" | "clone" | "to_owned" | "as_ref" | "as_deref" | "to_string" | "as_str" | "copied" | "cloned" | "borrow" => Ok(recv),
+                    "unwrap_or_default" if is_none => Ok(Val::List(vec![])),
+                    "unwrap" | "expect" if is_some => Ok(inner.unwrap()),
+                    "into" | "clone" | "to_owned" | "as_ref" | "as_deref" | "to_string" | "as_str" | "copied" | "cloned" | "borrow" | "as_mut" | "into_iter" | "iter" | "iter_mut" | "to_vec" => Ok(recv),
                     "is_some" if is_some || is_none => Ok(Val::Bool(is_some)),
                     "is_none" if is_some || is_none => Ok(Val::Bool(is_none)),
                     "unwrap_or" if is_some || is_none => {
@@ -788,6 +1011,41 @@ impl<'a> Evaluator<'a> {
                 }
             }
             Expr::Closure(_) => Ok(Val::Sym("closure".into())),
+            Expr::ForLoop(fl) => {
+                let it = self.eval(&fl.expr, env)?;
+                let items = match it {
+                    Val::List(l) => l,
+                    o => return Err(format!("for loop over {}", o.show())),
+                };
+                for item in items {
+                    let mut e2 = env.clone();
+                    match self.pat_match(&fl.pat, &item, &mut e2) {
+                        PatM::Yes => {}
+                        o => return Err(format!("for pattern: {:?}", o)),
+                    }
+                    let r = self.eval_block(&fl.body, &mut e2)?;
+                    merge_back_shadow_safe(env, &e2, &fl.pat);
+                    if let Val::Ctor(n, _, _) = &r {
+                        if n == "$return" {
+                            return Ok(r);
+                        }
+                        if n == "$break" {
+                            break;
+                        }
+                    }
+                }
+                Ok(Val::Unit)
+            }
+            Expr::Break(_) => Ok(Val::Ctor("$break".into(), vec![], BTreeMap::new())),
+            Expr::Continue(_) => Ok(Val::Ctor("$continue".into(), vec![], BTreeMap::new())),
+            Expr::Index(ix) => {
+                let base = self.eval(&ix.expr, env)?;
+                let idx = self.eval(&ix.index, env)?;
+                match (base, idx) {
+                    (Val::List(l), Val::Int { v, .. }) => l.get(v as usize).cloned().ok_or_else(|| "index out of range".to_string()),
+                    (b, i) => Err(format!("index {}[{}]", b.show(), i.show())),
+                }
+            }
             Expr::Array(a) => {
                 let mut v = vec![];
                 for e in a.elems.iter() {
@@ -829,6 +1087,68 @@ impl<'a> Evaluator<'a> {
                 Ok(Val::Ctor(name, vec![], named))
             }
             other => Err(format!("unsupported expression `{}`", tok(other))),
+        }
+    }
+
+    /// closure application that lets assignments to captured variables persist
+    pub fn apply_closure_mut(&self, c: &syn::Expr, args: &[Val], env: &mut Env) -> Result<Val, String> {
+        match c {
+            syn::Expr::Closure(cl) => {
+                let mut e2 = env.clone();
+                let mut bound = vec![];
+                for (p, a) in cl.inputs.iter().zip(args) {
+                    crate::model::collect_idents(&quote::ToTokens::to_token_stream(p), &mut bound);
+                    match self.pat_match(p, a, &mut e2) {
+                        PatM::Yes => {}
+                        o => return Err(format!("closure param: {:?}", o)),
+                    }
+                }
+                let r = self.eval(&cl.body, &mut e2)?;
+                let keys: Vec<String> = env.keys().cloned().collect();
+                for k in keys {
+                    if !bound.contains(&k) {
+                        if let Some(v) = e2.get(&k) {
+                            env.insert(k, v.clone());
+                        }
+                    }
+                }
+                Ok(match r {
+                    Val::Ctor(n, mut p, _) if n == "$return" => p.pop().unwrap_or(Val::Unit),
+                    o => o,
+                })
+            }
+            syn::Expr::Path(p) => {
+                // a fn item passed by path: ask the hook
+                let name = tok(p);
+                match (self.call_hook)(self, &name, args) {
+                    Some(r) => r,
+                    None => {
+                        let last = p.path.segments.last().unwrap().ident.to_string();
+                        if is_upper_first(&last) {
+                            Ok(Val::Ctor(last, args.to_vec(), BTreeMap::new()))
+                        } else {
+                            Ok(Val::Opaque(format!("fn {}", name)))
+                        }
+                    }
+                }
+            }
+            _ => Err("expected closure".into()),
+        }
+    }
+
+    /// `x`, `x.f`, `x.0.1` as a place (variable + field path)
+    pub fn place_of(&self, e: &syn::Expr) -> Option<(String, Vec<String>)> {
+        match e {
+            syn::Expr::Path(p) if p.path.segments.len() == 1 => Some((p.path.segments[0].ident.to_string(), vec![])),
+            syn::Expr::Field(f) => {
+                let (v, mut path) = self.place_of(&f.base)?;
+                path.push(tok(&f.member));
+                Some((v, path))
+            }
+            syn::Expr::Paren(p) => self.place_of(&p.expr),
+            syn::Expr::Reference(r) => self.place_of(&r.expr),
+            syn::Expr::Unary(u) if matches!(u.op, syn::UnOp::Deref(_)) => self.place_of(&u.expr),
+            _ => None,
         }
     }
 
@@ -956,4 +1276,22 @@ pub fn subst_quote(q: &[crate::quotex::QTok], env: &Env) -> String {
         s.push_str(&piece);
     }
     crate::model::norm_tokens(&s)
+}
+
+pub fn place_get_mut<'e>(env: &'e mut Env, place: &(String, Vec<String>)) -> Option<&'e mut Val> {
+    let mut cur = env.get_mut(&place.0)?;
+    for seg in &place.1 {
+        cur = match cur {
+            Val::Tuple(t) => t.get_mut(seg.parse::<usize>().ok()?)?,
+            Val::Ctor(_, pos, named) => {
+                if let Ok(i) = seg.parse::<usize>() {
+                    pos.get_mut(i)?
+                } else {
+                    named.get_mut(seg)?
+                }
+            }
+            _ => return None,
+        };
+    }
+    Some(cur)
 }
